@@ -70,7 +70,7 @@ func c27DrawCfg(rt *rapid.T) c27Cfg {
 	}
 	p.ceiling = p.bins*p.floor + rem
 	if pick(rt, "expClass", 60, 40) == 0 {
-		p.expN = rapid.Int64Range(0, 100).Draw(rt, "exp")
+		p.expN = int64(uniformN(rt, "exp", 101))
 	} else {
 		p.expN = rapid.SampledFrom([]int64{0, 1, 50, 99, 100}).Draw(rt, "exp")
 	}
